@@ -17,11 +17,12 @@ import (
 )
 
 type Env struct {
-	raw  map[string]any // named terms not yet evaluated (lazily evaluated: they may refer to observations of earlier steps)
-	defs map[string]Oct
-	obs  []J            // observation of every step executed so far in this vector
-	objs map[string]any // named Go objects created by steps
-	seed int64
+	raw   map[string]any // named terms not yet evaluated (lazily evaluated: they may refer to observations of earlier steps)
+	defs  map[string]Oct
+	obs   []J            // observation of every step executed so far in this vector
+	objs  map[string]any // named Go objects created by steps
+	seed  int64
+	arena map[string][]byte // one long-lived input buffer per (act, parameter), see present.go
 }
 
 func newEnv(seed int64) *Env {
